@@ -216,8 +216,19 @@ pub fn setup_inv(t: &mut Toks) -> Result<InvCase, String> {
     write_tree(&dir.join("nodes"), &nfiles)?;
     let inv = dir.to_str().unwrap().to_string();
     let nodes_root = format!("{inv}/nodes");
+    // every other case names its inventory by a path relative to the working directory (which is moved next to
+    // the case's scratch directory): what is reported about files -- the node URIs -- is absolute all the same
+    static CASE_NO: std::sync::atomic::AtomicUsize = std::sync::atomic::AtomicUsize::new(0);
+    let rel = CASE_NO.fetch_add(1, std::sync::atomic::Ordering::SeqCst) % 2 == 1;
+    let inv_arg = if rel {
+        // (the working directory is the case's own scratch directory; it is moved back when the case is done)
+        std::env::set_current_dir(&dir).map_err(|e| e.to_string())?;
+        ".".to_string()
+    } else {
+        inv.clone()
+    };
     let reclass = (|| -> anyhow::Result<Reclass> {
-        let mut cfg = hooks::Config::new(Some(&inv), None, None, Some(ignore))?;
+        let mut cfg = hooks::Config::new(Some(&inv_arg), None, None, Some(ignore))?;
         cfg.compose_node_name = compose;
         if dots {
             cfg.compatflags.insert(hooks::CompatFlag::ComposeNodeNameLiteralDots);
@@ -407,6 +418,7 @@ pub fn run(mode: &str, t: &mut Toks) -> Result<String, String> {
                     _ => Err(format!("bad op {op}")),
                 }
             })();
+            let _ = std::env::set_current_dir("/");
             let _ = std::fs::remove_dir_all(&case.dir);
             res
         }
